@@ -14,7 +14,7 @@ Theorem C01_init : forall c pool, pool_ok pool -> Inv c (init pool).
 Proof. exact Inv_init. Qed.
 
 (* Every public call - add, remove, discard, pop, pop(i), clear, insert, [i]=, [a:b]=, del [i],
-   del [a:b], construction from iterables, the SubmodelElementList value setter, the setters of
+   del [a:b], construction from iterables (also lazy ones that raise while they are consumed), the SubmodelElementList value setter, the setters of
    idShort / qualifier type / extension name / semantic_id, add_referable & co, remove_referable
    & co - preserves it, whether the call returns or raises ([fst] ignores the outcome). *)
 Theorem C01_step : forall c s p, Inv c s -> Inv c (fst (step c s p)).
@@ -92,7 +92,8 @@ Definition ex_pool1 : list elem :=
    mkelem (Some (KName "b")) None 3 0 (Some 1); mkelem (Some (KName "Ab")) None 0 1 None].
 Definition ex_names : list string := ["a"; "A"; "b"; "Ab"; "aB"].
 Definition ex_ops1 : list op :=
-  [Construct 0 false None [[0]; [4]; []]; Construct 1 false None [[]; []; []];
+  [Construct 0 false None [([0], false); ([4], false); ([], false)];
+   Construct 1 false None [([], false); ([], false); ([], false)];
    Add (0, 2) 1; Add (0, 2) 2; Add (0, 1) 3; Rename 2 (Some "a"); Rename 2 (Some "Ab");
    Remove (0, 0) 0; Add (0, 2) 1; Add (1, 0) 4; Pop (0, 1); Add (1, 1) 4; Rename 4 (Some "a");
    Rename 0 (Some "b"); OwnerAdd 0 0; OwnerRemove 0 "Ab"; Clear (0, 2); Discard (1, 1) 4; Add (0, 0) 4].
@@ -115,7 +116,7 @@ Definition ex_pool2 : list elem :=
   [mkelem None None 0 1 None; mkelem None None 0 1 (Some 0); mkelem None None 0 1 (Some 1);
    mkelem (Some (KName "a")) None 0 1 None; mkelem None None 2 0 None; mkelem None None 0 2 None].
 Definition ex_state2 : state :=
-  run (mkcfg AId true) (pool_fun ex_pool2) [Construct 0 true (Some (mklcfg 0 1 None)) [[0; 1]]].
+  run (mkcfg AId true) (pool_fun ex_pool2) [Construct 0 true (Some (mklcfg 0 1 None)) [([0; 1], false)]].
 Example C01_example_atomic :
   let c := mkcfg AId true in
   map (fun p => (snd (step c ex_state2 p),
